@@ -52,15 +52,16 @@ func init() {
 		}
 		return RunWire(c, &WireSpec{GenModule: "Gen_Wire", GenConsts: map[string]string{"OptMode": `"cover"`, "ValMode": `"all"`, "Muts": `"none"`}, GenInvs: []string{"Export"},
 			Op: "codec", JudgeProp: "C09", DevProps: []string{"C09", "C12"}, Level: "model_checking",
-			Rule: "cases = TLC-enumerated (shape x context x value x option set: pairwise cover of the 2^5 sets in quick, all 32 in thorough), one generated package per (schema, option set); each schema is generated under the empty set and a seed-rotating third (quick) or quarter (thorough) of the other sets; a seed-dependent 1/6 (quick) or 1/3 (thorough) of the values is executed per package, at least one each; non-trivial if the option set is not empty",
+			Rule: "cases = TLC-enumerated (shape x context x value x option set: pairwise cover of the 2^5 sets in quick, all 32 in thorough), one generated package per (schema, option set); each schema is generated under the empty set, under all five options, and under a seed-rotating quarter (quick) or fifth (thorough) of the other sets; a seed-dependent 1/6 (quick) or 1/3 (thorough) of the values is executed per package, at least one each; non-trivial if the option set is not empty",
 			Assume: wireAssume,
 			CaseFilter: func(s *wireSchema, cs *wireCase) bool {
 				// packages: every schema under the empty set and under a seed-rotating third (quarter) of the other sets
-				pm := 3
+				pm := 4
 				if c.Tier == "thorough" {
-					pm = 4
+					pm = 5
 				}
-				if cs.Mask != 0 && (cs.Sid+cs.Mask+c.Seed)%pm != 0 {
+				// every schema under no option, under all options, and under a seed-rotating share of the other sets
+				if cs.Mask != 0 && cs.Mask != 31 && (cs.Sid+cs.Mask+c.Seed)%pm != 0 {
 					return false
 				}
 				return cs.Vi == 1 || (cs.Sid+cs.Mask*5+cs.Vi+c.Seed)%mod == 0
